@@ -65,6 +65,9 @@ func (m *Model) ruleDSN(r *Results) {
 			}
 			// inside a helper: the call must dominate the helper's returns
 			for _, ret := range returnsOf(g) {
+				if m.isFailureReturn(ret) {
+					continue
+				}
 				if !(c.Block() == ret.Block() || c.Block().Dominates(ret.Block())) {
 					return nil
 				}
@@ -368,8 +371,27 @@ func (m *Model) ruleEXPSQL(r *Results) {
 			}
 			if c.Kind == sqlp.EBinary && c.Op == "<=" && isCol(c.Args[0], "exp") && isParam(c.Args[1]) {
 				if b, ok := s.bindingFor(c.Args[1]); ok {
-					rv, _ := m.resolve(b.V, b.Fr)
-					if call, ok := rv.(*ssa.Call); ok && call.Common().StaticCallee() == m.A.NowAsExpiry {
+					isNow := func(b Binding) bool {
+						rv, _ := m.resolve(b.V, b.Fr)
+						call, ok := rv.(*ssa.Call)
+						return ok && m.A.NowAsExpiry != nil && call.Common().StaticCallee() == m.A.NowAsExpiry
+					}
+					good := isNow(b)
+					if !good {
+						// the current time may be a parameter of a helper: then every caller must pass it
+						if rv, _ := m.resolve(b.V, b.Fr); rv != nil {
+							if _, isParamV := rv.(*ssa.Parameter); isParamV {
+								callers := m.staticCallersOf(rootOf(s.Fn))
+								good = len(callers) > 0
+								for _, cs := range callers {
+									if !isNow(Binding{V: b.V, Fr: m.closureFrame(cs.Parent()).inline(cs, rootOf(s.Fn))}) {
+										good = false
+									}
+								}
+							}
+						}
+					}
+					if good {
 						haveDue = true
 						continue
 					}
@@ -512,6 +534,11 @@ func (m *Model) ruleHLCMARKSQL(r *Results) {
 				if len(w.Where) == 1 {
 					if p := colEqParam(w.Where[0], "id"); p != nil {
 						if b, ok := s.bindingFor(p); ok {
+							// in a collection method the receiver is the method's own; in the allocator's
+							// closure it is the captured receiver of the enclosing method
+							if m.isRecvCollID(b) {
+								okc = true
+							}
 							b.Fr = fr
 							if m.isRecvCollID(b) {
 								okc = true
